@@ -73,6 +73,7 @@ def _cpu_alarm(signum, frame):
 # message of a few KB may consume; the real parser needs well under a millisecond.  Loops inside the regular-expression
 # engine execute no Python back-edge, so the sys.monitoring budget cannot see them.
 HTTP_CPU_SECONDS = 20
+_cpu_tripped = []
 
 
 def load_sample(name):
@@ -97,9 +98,13 @@ def call_entry(ep, data, mode, ctx):
     old = signal.signal(signal.SIGALRM, _alarm)
     signal.alarm(120)
     old_cpu = None
+    cpu_limit = HTTP_CPU_SECONDS
     if ep == "parse_raw_http":
         old_cpu = signal.signal(signal.SIGVTALRM, _cpu_alarm)
-        signal.setitimer(signal.ITIMER_VIRTUAL, HTTP_CPU_SECONDS)
+        # (once the limit has been exceeded in this process - a violation already - the remaining cases get a tenth of it, so
+        # that a broken tree is reported within the shard's own time limit)
+        cpu_limit = HTTP_CPU_SECONDS / 10 if _cpu_tripped else HTTP_CPU_SECONDS
+        signal.setitimer(signal.ITIMER_VIRTUAL, cpu_limit)
     try:
         with steps.budget(len(data)) as b:
             if ep == "from_bytes":
@@ -176,7 +181,8 @@ def call_entry(ep, data, mode, ctx):
     except steps.Overrun as e:
         return "bounded.progress", f"{ep}: unbounded looping: {e}"
     except CpuClock:
-        return "bounded.progress", f"{ep}: more than {HTTP_CPU_SECONDS} s of CPU time on a message of {len(data)} bytes (no Python loop involved: regular-expression backtracking)"
+        _cpu_tripped.append(1)
+        return "bounded.progress", f"{ep}: more than {cpu_limit:g} s of CPU time on a message of {len(data)} bytes (no Python loop involved: regular-expression backtracking)"
     except WallClock:
         ctx.inconclusive.append(f"{ep} exceeded 120 s wall clock on an input of {len(data)} bytes (not a verdict)")
         return None
